@@ -104,8 +104,10 @@ let scan_cmd () =
        | [cap; rb; sl; hx] ->
          let data = if hx = "-" then [] else bytes_of_hex hx in
          let sample = firstn (int_of_string sl) data in
+         (* read_csv.rs bind: the sample reached the end of the file iff the read left the buffer partly empty *)
+         let eof = List.length data < int_of_string sl in
          let chunks = chunks_of data (int_of_string rb) in
-         (match read_csv sample (nat_of_int (int_of_string cap)) chunks with
+         (match read_csv sample eof (nat_of_int (int_of_string cap)) chunks with
           | ScanPanic -> print_endline "PANIC"
           | ScanBindErr -> print_endline "BINDERR"
           | ScanOk (od, s, rows) ->
